@@ -302,6 +302,68 @@ theorem pbkdf2Blocks_prefix (salt : Bytes) (c l l' : Nat) (h : l ≤ l') :
 
 end pbkdf2
 
+
+/-! ### PBKDF2: the running-xor loop is RFC 8018's F = U_1 ⊕ U_2 ⊕ … ⊕ U_c -/
+
+/-- U_{j+1} of block `i`: U_1 = PRF(P, S ‖ INT(i)), U_{j+1} = PRF(P, U_j) -/
+def uSeq (prf : Bytes → Bytes) (salt : Bytes) (i : Nat) : Nat → Bytes
+  | 0 => prf (salt ++ natToBE 4 i)
+  | j + 1 => prf (uSeq prf salt i j)
+
+theorem xorIter_eq_fold (prf : Bytes → Bytes) (salt : Bytes) (i n k : Nat) (t : Bytes) :
+    xorIter prf n (uSeq prf salt i k) t =
+      ((List.range n).map fun j => uSeq prf salt i (k + 1 + j)).foldl xorBytes t := by
+  induction n generalizing k t with
+  | zero => rfl
+  | succ n ih =>
+    simp only [xorIter]
+    have hu : prf (uSeq prf salt i k) = uSeq prf salt i (k + 1) := rfl
+    rw [hu, ih (k + 1), List.range_succ_eq_map, List.map_cons, List.foldl_cons, List.map_map]
+    congr 2
+    funext j
+    simp only [Function.comp, Nat.succ_eq_add_one]
+    congr 1; omega
+
+/-- **RFC 8018 §5.2 step 3**: F(P, S, c, i) = U_1 ⊕ U_2 ⊕ … ⊕ U_c (for c ≥ 1; the code treats c ≤ 1 as 1) -/
+theorem pbkdf2F_eq_xor (prf : Bytes → Bytes) (salt : Bytes) (c i : Nat) :
+    pbkdf2F prf salt c i =
+      ((List.range (c - 1)).map fun j => uSeq prf salt i (j + 1)).foldl xorBytes (uSeq prf salt i 0) := by
+  unfold pbkdf2F
+  have := xorIter_eq_fold prf salt i (c - 1) 0 (uSeq prf salt i 0)
+  simp only [Nat.zero_add] at this
+  rw [show prf (salt ++ natToBE 4 i) = uSeq prf salt i 0 from rfl, this]
+  congr 2
+  funext j
+  congr 1; omega
+
+/-- **RFC 8018 §5.2 steps 2, 4**: DK = first dkLen octets of T_1 ‖ T_2 ‖ … ‖ T_l, l = ⌈dkLen / hLen⌉ -/
+theorem pbkdf2Key_blocks (a : HashAlg) (pw salt : Bytes) (iter : Int) (dkLen : Nat) (h : 0 < dkLen) :
+    pbkdf2Key a pw salt iter dkLen =
+      some (((List.range ((dkLen + a.size - 1) / a.size)).flatMap fun l =>
+        pbkdf2F (hmac a pw) salt iter.toNat (l + 1)).take dkLen) := by
+  unfold pbkdf2Key
+  have : ¬ ((dkLen : Int) ≤ 0) := by omega
+  simp only [this, ↓reduceIte, Int.toNat_natCast, Option.some.injEq]
+  congr 1
+  generalize (dkLen + a.size - 1) / a.size = l
+  induction l with
+  | zero => rfl
+  | succ l ih => rw [pbkdf2Blocks, ih, List.range_succ, List.flatMap_append]; simp
+
+/-! ### HKDF-Extract -/
+
+/-- RFC 5869 §2.2: "salt: if not provided, it is set to a string of HashLen zeros" — for HMAC the
+    empty key and HashLen zero bytes give the same PRK (what crypto/hkdf.Extract does for a nil salt) -/
+theorem extract_nil_salt (a : HashAlg) (hs : a.size ≤ a.blockSize) (secret : Bytes) :
+    extract a secret [] = extract a secret (zeros a.size) := by
+  unfold extract hmac
+  have : hmacKey a [] = hmacKey a (zeros a.size) := by
+    rw [hmacKey_short a [] (by simp), hmacKey_short a (zeros a.size) (by simp [zeros]; exact hs)]
+    simp only [zeros, List.nil_append, List.length_nil, Nat.sub_zero, List.length_replicate,
+      List.replicate_append_replicate]
+    congr 1; omega
+  rw [this]
+
 /-- `pbkdf2.Key` panics exactly for `keyLen ≤ 0`; otherwise it returns exactly `keyLen` bytes -/
 theorem pbkdf2Key_panic_iff (a : HashAlg) (pw salt : Bytes) (iter keyLen : Int) :
     pbkdf2Key a pw salt iter keyLen = none ↔ keyLen ≤ 0 := by
